@@ -1139,10 +1139,14 @@ def _finalize_std(df, count_column, sum_column, sum2_column, **kwargs):
     return _adjust_for_arrow_na(res, result, check_for_isna=True)
 
 
-def _cum_agg_aligned(part, cum_last, index, columns, func, initial):
+def _cum_agg_aligned(part, cum_last, index, columns, func, initial, name=no_default):
     align = cum_last.reindex(part.set_index(index).index, fill_value=initial)
     align.index = part.index
-    return func(part[columns], align)
+    result = func(part[columns], align)
+    if name is not no_default and is_series_like(result):
+        # an unnamed series travels through the frame under the column name 0
+        result = result.rename(name)
+    return result
 
 
 def _cum_agg_filled(a, b, func, initial):
